@@ -522,7 +522,9 @@ Lemma rr_loop_spec x : forall is_ st,
 Proof.
   induction is_ as [|i rest IH]; intros st; cbn [rr_loop].
   { cbn [fst snd]. split; [intros _; apply ekeep_refl|discriminate]. }
-  destruct (get_round st i) as [tr|] eqn:Htr; [|cbn [fst snd]; split; [intros _; apply ekeep_refl|discriminate]].
+  destruct (get_round st i) as [tr|] eqn:Htr;
+    [|destruct (lower_bound st) as [lb0|]; [destruct (i <=? lb0); [apply IH|]|];
+      (cbn [fst snd]; split; [intros _; apply ekeep_refl|discriminate])].
   destruct (get_peerset st i) as [tps|]; [|cbn [fst snd]; split; [intros _; apply ekeep_fail|discriminate]].
   pose proof (witnesses_decided_received tr tps) as Wr.
   destruct (witnesses_decided tr tps) as [d tr']. cbn [snd] in Wr.
